@@ -42,6 +42,12 @@ ENV_STUBS = [
      '    #[cfg(kani)] if crate::verif_support::stub_io_active() { return BufWriter::new(Box::new(Vec::<u8>::new()) as Box<dyn Write>); }\n'),
     ('merge_ska_array.rs', r'pub fn distance\(&self, constant: f64\) -> Vec<Vec<\(f64, f64\)>> \{\n',
      '        #[cfg(kani)] if crate::verif_support::rec_distance_active() { crate::verif_support::record_distance(constant, self.variants.nrows()); return Vec::new(); }\n'),
+    ('ska_dict.rs', r'        proportion_reads: Option<f64>,\n    \) -> Self \{\n',
+     '        #[cfg(kani)] if crate::verif_support::dict_provider_active() { let mut d = Self { k, rc, sample_idx, name: name.to_string(), split_kmers: HashMap::default(), kmer_filter: KmerFilter::default() }; let (pk, pb) = crate::verif_support::provided_entry(sample_idx); d.split_kmers.insert(<IntT as num_traits::NumCast>::from(pk).unwrap(), pb); return d; }\n'),
+    ('ska_ref/aln_writer.rs', r'pub fn write_split_kmer\(&mut self, mapped_pos: usize, mapped_chrom: usize, base: u8\) \{\n',
+     '        #[cfg(kani)] if crate::verif_support::writer_stub_active() { return; }\n'),
+    ('ska_ref/aln_writer.rs', r'pub fn finalise\(&mut self\) \{\n',
+     '        #[cfg(kani)] if crate::verif_support::writer_stub_active() { return; }\n'),
     ('ska_dict/bloom_filter.rs', r'pub fn init\(&mut self\) \{\n',
      '        #[cfg(kani)] if crate::verif_support::stub_io_active() { self.buf_size = 4; self.buffer.resize(4, 0); return; }\n'),
 ]
